@@ -8,9 +8,10 @@
   * `start`  — StartStage(j):  readRow → readTasks → readUps (readiness via `Stab.Ready.evaluate`) →
                [zombie check read] → claimTxn (CAS version ∧ status = expected phase) → plan (local) →
                planTxn (CAS version; persists tasks, `_join_fired`, pushes StartTask, marks processed).
-               With `fix = true` (proposed_fixes/F6.diff) a lost claim CAS re-reads the row and retries while the row is
-               still in the expected phase; a lost plan CAS re-reads and retries on the fresh version unless the stage
-               was taken over.  With `fix = false` (the code as found) both losses end the handler.
+               A lost claim CAS re-reads the row and retries while the row is still in the expected phase; a lost plan
+               CAS re-reads and retries on the fresh version unless the stage was taken over (`fix = true`, the default:
+               the code since fix 03375b7).  `fix = false` is the behaviour before that fix (both losses end the
+               handler); it is only used by the clearly labelled legacy witnesses in Props/C04.lean.
   * `complete i` — CompleteStage(uᵢ): read uᵢ (guard: RUNNING) → for DISCRIMINATOR / N_OF_M joins
                `_update_join_tracking`: re-read j, CAS-write `_completed_branches` into j (a NON-claim write that
                bumps j's version; bounded retry) → completeTxn (CAS uᵢ.version; uᵢ := SUCCEEDED; pushes StartStage(j)).
@@ -37,7 +38,7 @@ structure Cfg where
   join : JoinType := .and
   threshold : Int := 0
   predefined : Bool := true      -- the stage has task rows before it is planned (so it can never look like a zombie)
-  fix : Bool := true             -- proposed_fixes/F6.diff applied
+  fix : Bool := true             -- fix 03375b7 (F6); false = the code before it (legacy witnesses only)
   trackRetries : Nat := 5        -- `_update_join_tracking`: max_retries
   deriving Repr
 
